@@ -180,7 +180,7 @@ class Dispatcher:
         if pobj.constant is not None:
             # really needed? we could just construct a readreply instead....
             # raise ReadOnlyError('This parameter is constant and can not be accessed remotely.')
-            return pobj.datatype.export_value(pobj.constant)
+            return pobj.datatype.export_value(pobj.constant), {}
 
         # note: exceptions are handled in handle_request, not here!
         getattr(moduleobj, 'read_' + pname)()
